@@ -83,6 +83,9 @@ func ZZ_C14_gateway_v6() {
 	// an IPv4-mapped 16-byte address with a 128-bit mask is a different code
 	// path (To4 succeeds); covered by the rep16 case of the v4 harness only for 32-bit masks
 	zz.Assume(!(hi == 0 && lo>>32 == 0xffff))
+	// subnets whose upper 64 bits are zero (::/p) reach into the IPv4-mapped range ::ffff:0:0/96, whose
+	// 16-byte addresses net.IP treats as IPv4: no vSwitch prefix lives there (global unicast / ULA only)
+	zz.Assume(hi != 0)
 	ipNet := net.IPNet{IP: ipb, Mask: net.CIDRMask(p, 128)}
 	gw := GetIPAtIndex(ipNet, -3)
 
